@@ -30,6 +30,10 @@ TextCases == IF ~Fam("text") THEN {} ELSE
     IN { [kind |-> "byte", special |-> Sp(toks, "<pad>", w[1], w[2]), g |-> g, pad_to |-> pt,
           groups |-> gr, agg |-> "mean", unk |-> "<u>", slots |-> chunks[c]] :
             w \in Wraps, g \in BOOLEAN, pt \in {0, 128}, gr \in {"bytes", "code_points"}, c \in 1..Len(chunks) }
+       \cup   \* the pad token is one that the slot texts can spell (<p>): a text may end with it
+       { [kind |-> "byte", special |-> Sp(toks, "<p>", <<>>, s), g |-> g, pad_to |-> 0,
+          groups |-> "bytes", agg |-> "mean", unk |-> "<u>", slots |-> chunks[c]] :
+            s \in {<<>>, <<"<p>">>}, g \in BOOLEAN, c \in 1..Len(chunks) }
        \cup
        { [kind |-> "char", special |-> Sp(toks, "<pad>", w[1], w[2]), g |-> g, pad_to |-> 0,
           groups |-> "bytes", agg |-> "mean", unk |-> u, slots |-> chunks[c]] :
@@ -62,7 +66,7 @@ VocabCases == UNION {VocabCasesOf(t) : t \in TokLists}
 ByteStrs == UNION {[1..k -> 1..NB] : k \in 2..MaxEntry}
 Tables == IF ~Fam("bpe") THEN {} ELSE {t \in UNION {[1..k -> ByteStrs] : k \in 0..MaxTab} : B!WellFormed(t)}
 \* limits that leave no room for merges, or not even for the 256 bytes and the special tokens (family option LOWMV)
-LowMv == IF "LOWMV" \in DOMAIN IOEnv THEN {1, 64, 255, 256, 257} ELSE {}
+LowMv == IF "LOWMV" \in DOMAIN IOEnv THEN {1, 64, 255, 256, 257} ELSE {64, 257}
 \* limits that are looser than the table needs (family option LOWMV as well)
 HighMv(t) == IF "LOWMV" \in DOMAIN IOEnv THEN {258 + Len(t) + 3, 1000} ELSE {}
 BpeCasesOf(t, texts) ==
